@@ -290,7 +290,11 @@ impl DepthFirstSearch {
 
                         // If we only want one solution OR we've found enough, stop searching
                         if self.max_solutions == 1 || self.solutions.len() >= self.max_solutions {
-                            return true; // keep changes
+                            // keep changes: close this candidate's undo frame, handing its
+                            // records to the enclosing frame (if any) so that a caller that
+                            // fails later can still roll them back
+                            facts.commit_undo_frame();
+                            return true;
                         }
 
                         // Otherwise (max_solutions > 1 and not enough yet), rollback and continue
@@ -319,7 +323,9 @@ impl DepthFirstSearch {
                                     if self.max_solutions == 1
                                         || self.solutions.len() >= self.max_solutions
                                     {
-                                        return true; // keep changes
+                                        // keep changes (see above)
+                                        facts.commit_undo_frame();
+                                        return true;
                                     }
 
                                     // Otherwise, rollback and continue searching
